@@ -48,12 +48,12 @@ class BloomSystem(System):
             depth = 3 if tier == "quick" else 5
         if tier == "thorough":
             # sized so that a thorough run of one property stays well under half an hour on 16 cores
-            if prop in ("C05", "C19", "C06"):
+            if prop in ("C05", "C06"):
                 depth, ns = 4, list(range(1, 13)) + [16, 24, 40]
-            elif prop == "C14":
-                depth = 4
+            elif prop in ("C19", "C14"):
+                depth, ns = 4, list(range(1, 13))
             else:
-                depth = 5
+                depth, ns = 5, list(range(1, 13)) + [16, 24, 40]
         if prop == "C14" and tier == "quick":
             depth = 4
         seen = set()
